@@ -912,6 +912,12 @@ class Expander:
             if isinstance(e.ctx, ast.Load) and (none_(sl) or (isinstance(sl, ast.Tuple) and len(sl.elts) == 2 and none_(sl.elts[0]) and full_(sl.elts[1]))):
                 # X[None] / X[None, :] / X[np.newaxis, ...]  is  expand_dims(X, axis=0)
                 return T("mcall", "expand_dims", [T("free", "jnp"), self._tr(e.value)], {"axis": T("const", 0)}, node=e)
+            if isinstance(e.ctx, ast.Load) and isinstance(sl, ast.Tuple) and len(sl.elts) == 2 and full_(sl.elts[0]) and \
+                    isinstance(sl.elts[1], ast.Constant) and isinstance(sl.elts[1].value, int) and not isinstance(sl.elts[1].value, bool):
+                # argwhere(M)[:, k]  is  where(M)[k]  (the k-th coordinate of the positions where M holds, in the same order)
+                v_ = self._tr(e.value)
+                if v_.op == "mcall" and v_.name == "argwhere" and len(v_.args) == 2 and not v_.kw and v_.args[0].op == "free" and sl.elts[1].value >= 0:
+                    return T("item", sl.elts[1].value, [T("mcall", "where", list(v_.args), node=v_.node)], node=e)
             return T("sub", None, [self._tr(e.value), self._tr(e.slice)], node=e)
         if isinstance(e, ast.Slice):
             none = T("const", None)
